@@ -83,6 +83,7 @@ def stepLine (st : St) (n : Nat) (ln : Line) : St × List String :=
       let s' := commit s order (nsOf n)
       let mk := s.ilog.length ≠ 0 ∧ sn.idxLen < s.ilog.length
       let cov := (if mk then ["COV commit.makeup"] else ["COV commit.no-makeup"]) ++
+        (if (makeup s sn order (nsOf n)).isNone then ["COV commit.discarded"] else []) ++
         (if s'.v.log.length < (match makeup s sn order (nsOf n) with | some f => f.1.length | none => 0) then ["COV commit.truncated"] else []) ++
         (if mk ∧ (suffixOf s).any (fun e => !validEnt e) then ["COV commit.makeup-tombstone"] else []) ++
         (if mk ∧ (suffixOf s).any (fun e => validEnt e) then ["COV commit.makeup-copy"] else [])
